@@ -55,6 +55,16 @@ for en, kind, stmt, un in ENTRIES:
         w("fail", "arrayoutlive_%s_%s" % (kind, en), "pub fn f() {\n    let buf: Vec<u8> = %s.to_vec();\n    let mut own: [Header<'_>; 0] = [];\n    let mut r = %s::new(&mut own);\n    {\n        let mut u: [MaybeUninit<Header<'_>>; 4] = [MaybeUninit::uninit(); 4];\n        %s\n    }\n    let _ = r.headers.len();\n}\n" % (msg, "Request" if kind == "req" else "Response", stmt))
     else:
         w("fail", "arraywrite_%s_%s" % (kind, en), "pub fn f() {\n    let buf: Vec<u8> = %s.to_vec();\n    %s\n    %s\n    h[0] = EMPTY_HEADER;\n    let _ = r.headers.len();\n}\n" % (msg, setup, stmt))
+# reading the caller's ARRAY back after the buffer is gone (the array element lifetime must be tied
+# to the buffer lifetime through Request::new / Response::new / parse_headers)
+for kind, ty, msg in (("req", "Request", REQ), ("resp", "Response", RESP)):
+    for en, stmt in (("parse", "let _ = r.parse(&buf);"), ("cfg", "let _ = ParserConfig::default().parse_%s(&mut r, &buf);" % ("request" if kind == "req" else "response"))):
+        w("fail", "array_readback_after_buffer_%s_%s" % (kind, en), "pub fn f() -> usize {\n    let mut h = [EMPTY_HEADER; 4];\n    {\n        let buf: Vec<u8> = %s.to_vec();\n        let mut r = %s::new(&mut h);\n        %s\n    }\n    h[0].value.len() + h[0].name.len()\n}\n" % (msg, ty, stmt))
+        w("fail", "array_static_elements_%s_%s" % (kind, en), "pub fn f() -> Header<'static> {\n    let mut h: [Header<'static>; 4] = [EMPTY_HEADER; 4];\n    {\n        let buf: Vec<u8> = %s.to_vec();\n        let mut r = %s::new(&mut h);\n        %s\n    }\n    h[0]\n}\n" % (msg, ty, stmt))
+    w("fail", "array_readback_after_buffer_mutated_%s" % kind, "pub fn f() -> usize {\n    let mut h = [EMPTY_HEADER; 4];\n    let mut buf: Vec<u8> = %s.to_vec();\n    {\n        let mut r = %s::new(&mut h);\n        let _ = r.parse(&buf);\n    }\n    buf[0] = b'X';\n    h[0].value.len()\n}\n" % (msg, ty))
+w("fail", "array_readback_after_buffer_parse_headers", "pub fn f() -> usize {\n    let mut h = [EMPTY_HEADER; 4];\n    {\n        let buf: Vec<u8> = b\"A: b\\r\\n\\r\\n\".to_vec();\n        let _ = parse_headers(&buf, &mut h);\n    }\n    h[0].value.len()\n}\n")
+w("fail", "array_static_elements_parse_headers", "pub fn f() -> Header<'static> {\n    let mut h: [Header<'static>; 4] = [EMPTY_HEADER; 4];\n    {\n        let buf: Vec<u8> = b\"A: b\\r\\n\\r\\n\".to_vec();\n        let _ = parse_headers(&buf, &mut h);\n    }\n    h[0]\n}\n")
+w("fail", "uninit_array_readback_after_buffer", "pub fn f() -> usize {\n    let mut u: [MaybeUninit<Header<'_>>; 4] = [MaybeUninit::uninit(); 4];\n    let n;\n    {\n        let buf: Vec<u8> = %s.to_vec();\n        let mut own: [Header<'_>; 0] = [];\n        let mut r = Request::new(&mut own);\n        let _ = r.parse_with_uninit_headers(&buf, &mut u);\n        n = r.headers.len();\n    }\n    let first: &Header<'_> = unsafe_free_read(&u[0]);\n    n + first.name.len()\n}\nfn unsafe_free_read<'a, 'b>(m: &'a MaybeUninit<Header<'b>>) -> &'a Header<'b> { let _ = m; unimplemented!() }\n" % REQ)
 # parse_headers
 w("fail", "headers_slice_outlives_array", "pub fn f() {\n    let buf: Vec<u8> = b\"A: b\\r\\n\\r\\n\".to_vec();\n    let keep;\n    {\n        let mut h = [EMPTY_HEADER; 4];\n        keep = match parse_headers(&buf, &mut h) { Ok(Status::Complete((_, s))) => s, _ => return };\n    }\n    let _ = keep.len();\n}\n")
 w("fail", "headers_slice_outlives_buffer", "pub fn f() {\n    let mut h = [EMPTY_HEADER; 4];\n    let keep;\n    {\n        let buf: Vec<u8> = b\"A: b\\r\\n\\r\\n\".to_vec();\n        keep = match parse_headers(&buf, &mut h) { Ok(Status::Complete((_, s))) => s[0].value, _ => return };\n    }\n    let _ = keep.len();\n}\n")
